@@ -1,16 +1,18 @@
 mod genome;
 mod props;
+mod remote;
 mod run;
 
 use run::{Ctx, Part, Tier};
 use std::path::PathBuf;
 use std::time::Instant;
 
-struct PropDef { parts: Vec<Part>, rule: &'static str, assumptions: &'static [&'static str] }
+struct PropDef { parts: Vec<Part>, rule: &'static str, assumptions: &'static [&'static str], literal: Option<run::LiteralFn> }
 
 fn prop_def(id: &str) -> Option<PropDef> {
     Some(match id {
-        "C07" => PropDef { parts: props::c07::parts(), rule: props::c07::RULE, assumptions: props::c07::ASSUMPTIONS },
+        "C07" => PropDef { parts: props::c07::parts(), rule: props::c07::RULE, assumptions: props::c07::ASSUMPTIONS, literal: None },
+        "C13" => PropDef { parts: props::c13::parts(), rule: props::c13::RULE, assumptions: props::c13::ASSUMPTIONS, literal: Some(props::c13::check_literal) },
         _ => return None,
     })
 }
@@ -23,6 +25,7 @@ fn main() {
     let id = leak(args[1].clone());
     let seed: u64 = std::env::var("VERIF_SEED").ok().and_then(|s| s.parse::<i64>().ok()).map(|v| v as u64).unwrap_or(20260923);
     let home = PathBuf::from(std::env::var("VF_HOME").unwrap_or_else(|_| "/verif".into()));
+    let out = std::env::var("VF_OUT").map(PathBuf::from).unwrap_or_else(|_| home.clone());
     let repo = PathBuf::from(std::env::var("VF_REPO_ROOT").unwrap_or_else(|_| "/repo".into()));
     let work = std::env::var("VF_WORK").map(PathBuf::from).unwrap_or_else(|_| home.join("target/work")).join(format!("{}-{}", id, std::process::id()));
     let _ = std::fs::create_dir_all(&work);
@@ -32,14 +35,33 @@ fn main() {
     }
     run::install_panic_hook();
     let Some(def) = prop_def(id) else { eprintln!("no check registered for {id}"); std::process::exit(2); };
+    if args[2] == "--serve" {
+        let tier = if std::env::var("VF_TIER").as_deref() == Ok("thorough") { Tier::Thorough } else { Tier::Quick };
+        let ctx = Ctx { prop: id, tier, seed, home, out, repo, work, strict: false, in_child: true, dry: false };
+        let part = def.parts.iter().find(|p| p.name == args[3]).expect("part");
+        remote::serve(&ctx, part, part.remote.expect("remote cfg"));
+        let _ = std::fs::remove_dir_all(&ctx.work);
+        return;
+    }
+    if args[2] == "--literal" {
+        let ctx = Ctx { prop: id, tier: Tier::Quick, seed, home, out, repo, work, strict: true, in_child: true, dry: false };
+        let v: serde_json::Value = serde_json::from_str(&std::fs::read_to_string(&args[3]).expect("read")).expect("json");
+        // same stack as the fontc worker threads that run the feature job
+        let rep = std::thread::Builder::new().stack_size(2 << 20).spawn(move || {
+            let f = prop_def(ctx.prop).unwrap().literal.expect("literal");
+            match std::panic::catch_unwind(std::panic::AssertUnwindSafe(|| f(&ctx, &v))) { Ok(r) => r, Err(_) => { let mut r = run::CaseReport::default(); r.fail("panic-in-literal", run::LAST_PANIC.with(|p| p.borrow().clone())); r } }
+        }).unwrap().join().unwrap();
+        println!("{}", remote::report_to_json(&rep));
+        return;
+    }
     let replay = args[2] == "--replay";
     let tier = if args[2] == "thorough" { Tier::Thorough } else { Tier::Quick };
-    let ctx = Ctx { prop: id, tier, seed, home: home.clone(), repo, work: work.clone(), strict: replay };
+    let ctx = Ctx { prop: id, tier, seed, home: home.clone(), out: out.clone(), repo, work: work.clone(), strict: replay, in_child: false, dry: false };
     let t0 = Instant::now();
     let mut exit = 0;
     if replay {
         let path = PathBuf::from(&args[3]);
-        let (known, unknown) = run::replay_file(&ctx, &def.parts, &path);
+        let (known, unknown) = run::replay_file(&ctx, &def.parts, def.literal, &path);
         for f in &known { println!("KNOWN-FINDING: property={id} [{}] {}", f.signature, f.detail.chars().take(300).collect::<String>()); }
         for f in &unknown { println!("VIOLATION property={id} replay={}", path.display()); println!("  {} :: {}", f.signature, f.detail.chars().take(600).collect::<String>()); exit = 1; }
         if unknown.is_empty() { println!("replay: property held on this case"); }
@@ -51,7 +73,7 @@ fn main() {
         stored.sort();
         let mut known_lines = std::collections::BTreeSet::new();
         for p in &stored {
-            let (known, unknown) = run::replay_file(&ctx, &def.parts, p);
+            let (known, unknown) = run::replay_file(&ctx, &def.parts, def.literal, p);
             replayed += 1;
             for f in known { known_lines.insert(f.signature); }
             for f in &unknown { println!("VIOLATION property={id} replay={}", p.display()); println!("  {} :: {}", f.signature, f.detail.chars().take(600).collect::<String>()); exit = 1; }
